@@ -326,6 +326,10 @@ def run(ctx):
         raise Broken("expected two Payload equality operators, found %d" % len(peqs))
     for f in peqs:
         cn = called_names(f.body)
+        # (the comparison may be split over file-local predicates called in sequence: what they call counts)
+        for g2 in fb.reachable_from([f]).values():
+            if g2.key != f.key and g2.body is not None and ("(anon-ns)" in g2.name or (g2.rec is None and g2.raw.get("static"))):
+                cn = cn | called_names(g2.body)
         cls = f.params[0]["t"]["s"].replace("const ", "").replace(" &", "")
         okk = all((cls + "::" + g) in cn for g in ("getType", "getLength", "getRawPayload"))
         res.check(okk, "C14-R3", "operator==(%s):coverage" % cls, f.loc, "type, length and bytes compared", "operator==(%s) does not read type, length and bytes" % cls)
